@@ -113,7 +113,7 @@ def run(ctx):
     prog = ctx.prog
     ce = ConstEval(prog)
     spec = _load_spec()
-    ctx.clauses_decided = ["R1 one-based -> zero-based", "R2 column layouts", "R3 chemists' -> physicists'", "R4 triangular / block unpacking", "R5 permutation literals", "R6 labelled records attached by label", "R7 index maps of reshaping expressions (symbolic evaluation)", "R8 no placement by narrow counter fields", "R9 VASP coordinate-mode switch", "R10 deferred application of section data", "R11 Molden tag meaning (finite-domain evaluation)", "R12 block precedence in log scans", "R13 GRO box order (evaluated)", "R14 pass-through key collisions", "R15 MOL2 atom record fields (evaluated)", "R16 PDB ATOM record fields (evaluated)", "R17 WFN nucleus record (evaluated)", "R18 CHARMM crd record (evaluated)", "R19 Gaussian-log matrix blocks (evaluated)", "R20 grid data order (evaluated)"]
+    ctx.clauses_decided = ["R1 one-based -> zero-based", "R2 column layouts", "R3 chemists' -> physicists'", "R4 triangular / block unpacking", "R5 permutation literals", "R6 labelled records attached by label", "R7 index maps of reshaping expressions (symbolic evaluation)", "R8 no placement by narrow counter fields", "R9 VASP coordinate-mode switch", "R10 deferred application of section data", "R11 Molden tag meaning (finite-domain evaluation)", "R12 block precedence in log scans", "R13 GRO box order (evaluated)", "R14 pass-through key collisions", "R15 MOL2 atom record fields (evaluated)", "R16 PDB ATOM record fields (evaluated)", "R17 WFN nucleus record (evaluated)", "R18 CHARMM crd record (evaluated)", "R19 Gaussian-log matrix blocks (evaluated)", "R20 grid data order (evaluated)", "R21 WFN primitive regrouping (evaluated)"]
     ctx.clauses_declined = ["free-format and log-file parsers beyond R1/R3/R4/R5", "numerical accuracy of parsed values", "Fortran D exponents"]
 
     # ------------------------------------------------------------------ R2
@@ -597,6 +597,8 @@ def run(ctx):
     check_gaussianlog_blocks(ctx, "R19")
     ctx.rule("R20", "volumetric data: every number of the file lands at its grid point (cube: C order; VASP: x fastest) (evaluated)", "densities transposed between x and z, or shifted by one after a ragged line")
     check_grid_data_order(ctx, "R20")
+    ctx.rule("R21", "WFN / WFX primitive lists are regrouped into shells with the right row permutation (evaluated)", "the px/py/pz coefficients of a contracted shell are attached to each other's primitives")
+    check_wfn_build_obasis(ctx, "R21")
 
 
 NARROW_POSITIVE = '''
@@ -1237,3 +1239,50 @@ def check_grid_data_order(ctx, rid):
         ctx.violate(rid, f"VASP grid: grid point {idx} receives the number at position {int(round(g[idx] - 0.5))} of the file, VASP lists x fastest: position {int(round(want[idx] - 0.5))}", f, loop, construct="vasp grid order")
     else:
         ctx.ok(rid, "VASP grid: 24 numbers (five per line) fill the 2 x 3 x 4 grid with x running fastest", f"{f.module.relpath}:{loop.lineno}")
+
+
+def check_wfn_build_obasis(ctx, rid):
+    """WFN / WFX primitive lists are regrouped into shells: `build_obasis` evaluated on two model primitive lists for
+    one centre -- an s function and a p shell of two primitives, (a) listed the way contracted shells appear in real
+    files (all px, then all py, then all pz) and (b) primitive by primitive, as iodata's own writers list them.  The
+    shells and the permutation that brings the coefficient rows into shell order must be the documented ones."""
+    from ..accessors import AccessorEval, Raised, Rec
+    from ..symarr import NotSymbolic
+
+    prog = ctx.prog
+    f = prog.funcs.get("iodata.formats.wfn.build_obasis")
+    if f is None:
+        raise AnalysisError("wfn.build_obasis not found")
+    licls = prog.cls("iodata.utils.LineIterator")
+    cases = [
+        ("contracted p shell listed as px px py py pz pz", [0, 1, 1, 2, 2, 3, 3], [5.0, 2.0, 1.0, 2.0, 1.0, 2.0, 1.0], [0, 1, 3, 5, 2, 4, 6], [(0, 5.0), (1, 2.0), (1, 1.0)]),
+        ("primitive by primitive (px py pz px py pz)", [0, 1, 2, 3, 1, 2, 3], [5.0, 2.0, 2.0, 2.0, 1.0, 1.0, 1.0], [0, 1, 2, 3, 4, 5, 6], [(0, 5.0), (1, 2.0), (1, 1.0)]),
+        ("a d shell in the WFN order xx yy zz xy xz yz", [4, 5, 6, 7, 8, 9], [3.0] * 6, [0, 1, 2, 3, 4, 5], [(2, 3.0)]),
+    ]
+    bad = None
+    for label, types, expo, want_perm, want_shells in cases:
+        lit = Rec(licls, filename="F", fh=iter([]), lineno=0, stack=[])
+        ev = AccessorEval(prog, licls, limit=20000)
+        ev.module = f.module
+        try:
+            obasis, perm = ev.run_free(f, [np.zeros(len(types), dtype=int), np.array(types), np.array(expo), lit], {})
+        except Raised as exc:
+            bad = f"{label}: build_obasis raises {exc.args[0]}"
+            break
+        except NotSymbolic as exc:
+            raise AnalysisError(f"wfn.build_obasis is outside the evaluation whitelist: {exc}") from exc
+        got_perm = [int(float(v.terms.get((), 0)) if hasattr(v, 'terms') else v) for v in np.asarray(perm, dtype=object).ravel()]
+        def _f(v):
+            return float(v.terms.get((), 0)) if hasattr(v, "terms") else float(v)
+
+        got_shells = [(int(_f(np.asarray(s.fields["angmoms"], dtype=object).ravel()[0])), _f(np.asarray(s.fields["exponents"], dtype=object).ravel()[0])) for s in obasis.fields["shells"]]
+        if got_shells != want_shells:
+            bad = f"{label}: shells (l, exponent) {got_shells}, expected {want_shells}"
+            break
+        if got_perm != want_perm:
+            bad = f"{label}: permutation {got_perm}, expected {want_perm} (row k of the regrouped coefficients = row permutation[k] of the file)"
+            break
+    if bad:
+        ctx.violate(rid, f"WFN primitive regrouping, {bad}", f, f.node, construct=f"build_obasis: {bad}"[:170])
+    else:
+        ctx.ok(rid, f"WFN / WFX primitive lists: {len(cases)} model lists are regrouped into the right shells with the right row permutation", f"{f.module.relpath}:{f.lineno}")
